@@ -189,6 +189,30 @@ func ttlCase(w *W, idx int) {
 			})
 		})
 	}
+	// a short TTL set and taken back in ONE transaction (on a row without a committed deadline, and inside
+	// the insert itself): the row has no TTL
+	for i := 0; i < 5; i++ {
+		r := insert("set-then-reset-in-one-txn", 0)
+		c.QueryAt(r.off, func(row column.Row) error {
+			row.SetTTL(time.Duration(40+rng.Intn(60)) * time.Millisecond)
+			row.SetTTL(0)
+			return nil
+		})
+		r.deadline, r.mustLive = 0, true
+		r2 := &ttlRow{group: "inserted-with-ttl-taken-back", judged: true, mustLive: true}
+		off, err := c.Insert(func(row column.Row) error {
+			row.SetInt64("m", 0)
+			row.SetInt64("id", int64(row.Index())+1000000)
+			row.SetTTL(time.Duration(40+rng.Intn(60)) * time.Millisecond)
+			row.SetTTL(0)
+			return nil
+		})
+		if err != nil {
+			panic(err)
+		}
+		r2.off = off
+		rows = append(rows, r2)
+	}
 	// Set and Extend in ONE transaction on a row that already has a committed deadline: now+2h+1h
 	for i := 0; i < 5; i++ {
 		r := insert("set-then-extend", time.Hour)
